@@ -102,6 +102,8 @@ def worker(sh):
                              {'line': line[:3000], 'config': cfg})
             exp = expected_setlen(kind, data, c)
             acc = int(kv.get('accepted', -9))
+            if 'setlen' not in kv:
+                continue
             if exp is not None:
                 if int(kv['setlen']) != exp:
                     fail('length-discovery', 'set_length returned %s, the format implies %d' % (kv['setlen'], exp))
@@ -120,6 +122,49 @@ def worker(sh):
             if cfg == sh.payload['cfgs'][0]:
                 sh.event('unmarshal:%s' % kind, '%s/%s' % (label, {1: 'accepted', 0: 'rejected', -2: 'rejected-by-length'}.get(acc, '?')))
         sh.count('buffers_x_configs', len(lines))
+    # length discovery alone for EVERY buffer length (first byte 0/1/2/255): compare with the independent statement of the format
+    if sh.index < 8:
+        kind = ('wparams', 'wsk')[sh.index % 2]
+        c = (sh.index // 2) % 2
+        fbs = (0, 1) if sh.index < 4 else (2, 255)
+        maxlen = sh.pick(3000, 20000)
+        sweep = ['lens %s %d %d %d' % (kind, c, fb, maxlen) for fb in fbs]
+        for cfg in ('san', 'guard-end'):
+            so = sh.run(cfg, sweep)
+            for fb, out in zip(fbs, so):
+                if out is None:
+                    continue
+                vals = out[-1].split(',')
+                for n, v in enumerate(vals, start=1):
+                    exp = expected_setlen(kind, bytes([fb]) + bytes(n - 1), c)
+                    if v != str(exp):
+                        sh.violation('buffer:%s:length-discovery' % kind, 'length discovery on a %d-byte buffer with first byte %d (%s) returned %s, the format implies %d [%s]'
+                                     % (n, fb, 'compressed' if c else 'uncompressed', v, exp, cfg), {'line': 'lens %s %d %d %d' % (kind, c, fb, n), 'config': cfg})
+                        break
+                if cfg == 'san':
+                    sh.event('length-discovery-sweep:%s' % kind, '%s/firstbyte%d' % ('c' if c else 'u', fb), n=len(vals))
+    # every prefix of small valid params / secret keys (first byte = signature flag as marshalled)
+    if 8 <= sh.index < 12 and valid:
+        small = sorted([v for v in valid if v[0] in ('wparams', 'wsk')], key=lambda v: len(v[2]))[:4 if sh.quick else 12]
+        pl = []
+        pm = []
+        for kind, c, data in small:
+            for n in range(1, len(data)):
+                pl.append('unm %s %d %d %s' % (kind, c, n & 1, data[:n].hex()))
+                pm.append((kind, c, data[:n]))
+        for cfg in ('san', 'guard-end'):
+            res = sh.run(cfg, pl)
+            for (kind, c, data), line, out in zip(pm, pl, res):
+                if out is None:
+                    continue
+                kv = {t.split('=')[0]: t.split('=')[1] for t in out if '=' in t}
+                exp = expected_setlen(kind, data, c)
+                if 'setlen' not in kv:
+                    continue
+                if int(kv['setlen']) != exp:
+                    sh.violation('buffer:%s:length-discovery' % kind, 'set_length on a %d-byte prefix returned %s, the format implies %d [%s]' % (len(data), kv['setlen'], exp, cfg), {'line': line[:3000], 'config': cfg})
+                if cfg == 'san':
+                    sh.event('unmarshal:%s' % kind, 'every-prefix/%s' % ('parsed' if exp != -1 else 'rejected-by-length'))
     if sh.index == 0:
         for lab, kind, c, chk, data in cases[:400:80]:
             sh.sample({'label': lab, 'kind': kind, 'compressed': c, 'checked': chk, 'length': len(data), 'head': data[:16].hex()}, limit=5)
@@ -189,7 +234,7 @@ def run(ctx):
     ctx.extra['buffer_configs'] = cfgs
     ctx.extra['sanitizer_configs'] = san_cfgs
     ctx.assumptions = ['ASan sees heap/stack/global red zones only (intra-object overruns: C08 cursor monitor, C06 guard words)', 'Go bindings themselves are not executed; their allocation protocol is reproduced in C']
-    need = ['unmarshal:wparams|truncated', 'unmarshal:wsk|truncated', 'unmarshal:wsk|extended', 'unmarshal:wparams|valid/accepted', 'unmarshal:wsk|valid/accepted', 'unmarshal:wsk|first-byte-0',
+    need = ['length-discovery-sweep:wparams|c/firstbyte1', 'length-discovery-sweep:wsk|u/firstbyte1', 'length-discovery-sweep:wsk|c/firstbyte255', 'unmarshal:wsk|every-prefix', 'unmarshal:wparams|truncated', 'unmarshal:wsk|truncated', 'unmarshal:wsk|extended', 'unmarshal:wparams|valid/accepted', 'unmarshal:wsk|valid/accepted', 'unmarshal:wsk|first-byte-0',
             'guard-page:field-group-pairing|completed', 'sanitized-workload:C11|san', 'sanitized-workload:C15|san', 'sanitized-workload:C02|san']
     for r in need:
         if not any(k.startswith(r) for k in ctx.classes):
